@@ -707,7 +707,8 @@ end parser
 
 section rootwin
 open JanetModel.GC.RootWin
-open JanetModel.Gen.GCRoot (edges mayCollectMask collectId gcallocId runVmId nFuncs family familyClosure beginEndRows beginEndEscapes mayWindows)
+open JanetModel.Gen.GCRoot (edges edgesU edgesLocked lockUsers mayCollectMask mayCollectUnlockedMask collectId gcallocId runVmId nFuncs family
+  familyClosure beginEndRows beginEndEscapes mayWindows)
 
 /-- the finite side of the call-graph certificate, evaluated by the kernel on the regenerated graph (6 757 edges over 1 501
 functions on the pinned tree): the complement of the claimed may-collect set is closed under every call edge - direct,
@@ -743,18 +744,40 @@ theorem begin_end_windows_covered :
   have h : allOutside mayCollectMask (beginEndRows.map fun r => r.2.2) = true := by decide +kernel
   exact allOutside_mem h (List.mem_map_of_mem hr)
 
-/-- What is NOT certified (tested only, by the schedule-differential runs): the functions that CAN be interrupted by a
-collection.  Every function of the library is either uninterruptible (previous theorems) or listed in the regenerated table
-`mayWindows` together with its number of (allocating call, later collecting call) pairs; the protection of those windows -
-value already stored on the fiber stack, `janet_gclock`, value dead afterwards - is not established statically.
-Missing for the full statement: a liveness / rootedness analysis of those 110 functions (3 713 of the 4 170 raw pairs lie
-in `run_vm`). -/
+/-- the same certificate over the call edges that exist OUTSIDE every `janet_gclock .. janet_gcunlock` region (must-analysis on
+the caller's control-flow graph; `edges = edgesU ++ edgesLocked`), and: the edges that exist only inside such a region all
+start in the regenerated list of lock users (janet_call - which runs the interpreter with the collector suspended -,
+lookup_missing, macroexpand1) -/
+theorem callgraph_unlocked_closed :
+    closedOK edgesU mayCollectUnlockedMask = true ∧ inMask mayCollectUnlockedMask collectId = true ∧
+    edgesLocked.all (fun e => lockUsers.contains (e / 4096)) = true := by
+  refine ⟨?_, ?_, ?_⟩ <;> decide +kernel
+
+/-- **recognised protection `janet_gclock`**: for a function outside the (smaller) unlocked may-collect set, EVERY call chain
+that leads to `janet_collect` passes through a call site inside a gclock region of one of the lock users - where the
+collector is suspended and `janet_collect` returns at once (`collect_suspended_noop`, `suspended_region_keeps_heap`). -/
+theorem collect_chain_passes_gclock (f : Nat) (hf : inMask mayCollectUnlockedMask f = false) (hr : Reaches edges f collectId) :
+    ∃ x y, Reaches edgesU f x ∧ x * 4096 + y ∈ edgesLocked ∧ x ∈ lockUsers := by
+  rcases reaches_split (U := edgesU) (L := edgesLocked) hr with h | ⟨x, y, h1, hy, h3, _⟩
+  · exact absurd h (outside_never_reaches callgraph_unlocked_closed.1 callgraph_unlocked_closed.2.1 hf)
+  · refine ⟨x, y, h1, h3, ?_⟩
+    have := (List.all_eq_true.mp callgraph_unlocked_closed.2.2) _ h3
+    have e2 : (x * 4096 + y) / 4096 = x := by omega
+    rw [e2] at this
+    simpa using this
+
+/-- What is NOT certified (tested only, by the schedule-differential runs): the functions that CAN be interrupted by an
+unsuspended collection.  Every function of the library is either never interrupted (no chain to `janet_collect` outside gclock
+regions) or listed in the regenerated table `mayWindows` with its number of (allocating call, later collecting call) pairs;
+the protection of those windows - value already stored on the fiber stack, value dead afterwards - is not established
+statically.  Missing for the full statement: a liveness / rootedness analysis of those 56 functions (3 619 of the 3 820 raw
+pairs lie in `run_vm`, 120 in `peg_rule`). -/
 theorem c_local_windows_partial (f : Nat) (hf : f < nFuncs) :
-    (¬ Reaches edges f collectId) ∨ f ∈ mayWindows.map Prod.fst := by
-  have h : coveredOrListed mayCollectMask nFuncs (mayWindows.map Prod.fst) = true := by decide +kernel
+    (¬ Reaches edgesU f collectId) ∨ f ∈ mayWindows.map Prod.fst := by
+  have h : coveredOrListed mayCollectUnlockedMask nFuncs (mayWindows.map Prod.fst) = true := by decide +kernel
   have := (List.all_eq_true.mp h) f (List.mem_range.mpr hf)
-  cases hm : inMask mayCollectMask f with
-  | false => exact Or.inl (nocollect_sound f hm)
+  cases hm : inMask mayCollectUnlockedMask f with
+  | false => exact Or.inl (outside_never_reaches callgraph_unlocked_closed.1 callgraph_unlocked_closed.2.1 hm)
   | true =>
     rw [hm] at this
     simp at this
@@ -762,7 +785,7 @@ theorem c_local_windows_partial (f : Nat) (hf : f < nFuncs) :
 
 /-- non-vacuity: the interpreter does reach the collector (so the mask is not vacuous), and the closure condition rejects a
 mask that leaves out a caller of `janet_collect` -/
-example : Reaches edges runVmId collectId := .step (by decide) (by decide +kernel) (.refl _)
+example : Reaches edgesU runVmId collectId := .step (by decide) (by decide +kernel) (.refl _)
 example : closedOK edges (mayCollectMask - 2 ^ runVmId) = false := by decide +kernel
 example : inMask mayCollectMask runVmId = true ∧ inMask mayCollectMask gcallocId = false := by constructor <;> decide +kernel
 
